@@ -309,6 +309,9 @@ func TestC04(t *testing.T) {
 		}
 		doc := map[string]any{"plan": p, "churn_log": out.Log}
 		labels := []string{}
+		if p.Churn.LogJitterPct > 0 {
+			labels = append(labels, "log-jitter")
+		}
 		if out.JoinLeaveConcurrent {
 			labels = append(labels, "join||leave")
 		}
